@@ -409,6 +409,8 @@ class Proj:
 
 
 def fmt_limit(sec):
+    if sec % 60 == 0 and (sec // 1800) % 3 == 0 and sec < 86400 * 3:
+        return "%dmin" % (sec // 60)        # the same limit written in minutes (every third half-hour value)
     fr = Fraction(sec, 3600)
     if fr.denominator == 1:
         return "%dh" % fr.numerator
